@@ -72,7 +72,7 @@ def cases(tier, seed):
             for state in ("absent", "empty"):
                 yield {"k": "loc", "req": req, "cwd": cwd, "vcs": vcs, "state": state, "rootopt": rootopt, "fail": None, "rootname": "LICENSES"}
     for variant in ("output-new", "output-existing", "output-two-ids", "source-file", "source-dir", "source-missing", "source-dir-missing-file",
-                    "source-existing-target", "all", "all-with-failure", "all-nothing-missing", "all-plus-id", "no-arguments",
+                    "source-existing-target", "source-existing-output", "source-dir-existing-output", "licenseref-existing-output", "all", "all-with-failure", "all-nothing-missing", "all-plus-id", "no-arguments",
                     "non-ascii-identifier", "all-with-non-ascii-identifier", "other-extension-present", "text-in-subdirectory-present"):
         for fail in (None, "http500"):
             yield {"k": "opt", "variant": variant, "fail": fail}
@@ -249,6 +249,16 @@ def ev_opt(c) -> R:
     elif v == "source-existing-target":
         rec["LICENSES/LicenseRef-x.1.txt"] = SENTINEL
         argv = ["download", "--source", str(src_dir), "LicenseRef-x.1"]
+        fail = True
+    elif v in ("source-existing-output", "source-dir-existing-output", "licenseref-existing-output"):
+        # the explicit --output path exists already: never replaced, whatever the source of the text is
+        rec["third-party/COPY.txt"] = SENTINEL
+        argv = ["download", "--output", str(root / "third-party" / "COPY.txt")]
+        if v == "source-existing-output":
+            argv += ["--source", str(src_dir / "LicenseRef-x.1.txt")]
+        elif v == "source-dir-existing-output":
+            argv += ["--source", str(src_dir)]
+        argv.append("LicenseRef-x.1")
         fail = True
     elif v in ("all", "all-with-failure"):
         argv = ["download", "--all"]
